@@ -306,6 +306,24 @@ func (s *OuterJoin) receiveRecord(ctx ExecutionContext, produce ProduceFn, myRec
 		}
 		key[i] = value
 	}
+	for i := range key {
+		if key[i].TypeID == octosql.TypeIDNull {
+			// An equality never matches a NULL key, so this record joins with nothing:
+			// on an outer side it is emitted padded with nulls, otherwise it is dropped.
+			outputValues := make([]octosql.Value, s.leftFieldCount+s.rightFieldCount)
+			if s.isOuterLeft && amLeft {
+				copy(outputValues, record.Values)
+			} else if s.isOuterRight && !amLeft {
+				copy(outputValues[s.leftFieldCount:], record.Values)
+			} else {
+				return nil
+			}
+			if err := produce(ProduceFromExecutionContext(ctx), NewRecord(outputValues, record.Retraction, record.EventTime)); err != nil {
+				return fmt.Errorf("couldn't produce: %w", err)
+			}
+			return nil
+		}
+	}
 
 	firstRecordForThatKeyOnThisSide := false
 	lastRetractionForThatKeyOnThisSide := false
